@@ -72,6 +72,8 @@ class C04(Prop):
             # a shifted time axis changes the floating-point value of the final (clamped) step by rounding: allow h-rounding * |f|
             L = w.problem.lipschitz(k)
             bound += 64 * eps * max(abs(float(b["t"][-1])), abs(float(a["t"][-1])), 1.0) * L * max(ymax, 1e-300) * amp * n
+            # the scenario's span end points are float64 numbers: the shifted span t0+c, tf+c is only a shift up to float64 rounding
+            bound += 8 * 2.3e-16 * max(abs(float(b["t"][-1])), abs(float(b["t"][0])), 1.0) * L * max(ymax, 1e-300) * amp
             name = "C04.%s_rounding_level" % twin
             res["ratios"][name] = max(res["ratios"].get(name, 0), err / bound)
             if err > bound:
@@ -80,6 +82,7 @@ class C04(Prop):
         else:
             integ = w.system.integrator
             bound = 200 * ((float(integ.atol) + float(integ.rtol) * ymax) * n * amp + 64 * eps * ymax * n)
+            bound += 8 * 2.3e-16 * max(abs(float(b["t"][-1])), abs(float(b["t"][0])), 1.0) * w.problem.lipschitz(k) * max(ymax, 1e-300) * amp
             name = "C04.%s_tolerance_level" % twin
             res["ratios"][name] = max(res["ratios"].get(name, 0), err / bound)
             if err > bound:
